@@ -224,3 +224,42 @@ def isolated(fn, *args):
     if kind == "harness":
         raise HarnessError(val)
     return val
+
+
+# --------------------------------------------------------------------------- logging configuration of the process
+class log_config(object):
+    """The logging set-up a client process may legitimately have is part of the environment of a run:
+    'quiet'  -> logging.disable(CRITICAL)   (nothing is emitted, isEnabledFor() is False everywhere)
+    'default'-> as imported: xfab's module loggers at NOTSET under a WARNING root, records dropped by a NullHandler
+    'debug'  -> the documented logging.getLogger('xfab.<module>').setLevel(DEBUG) for every xfab logger
+    Handlers of the xfab loggers are replaced by a NullHandler for the duration (they write to stderr)."""
+
+    def __init__(self, mode):
+        self.mode = mode or "quiet"
+
+    def __enter__(self):
+        import logging
+        self.logging = logging
+        self.saved = []
+        if self.mode == "quiet":
+            logging.disable(logging.CRITICAL)
+            return self
+        names = [n for n in list(logging.root.manager.loggerDict) if n == "xfab" or n.startswith("xfab.")]
+        for n in sorted(names):
+            lg = logging.getLogger(n)
+            self.saved.append((lg, lg.level, list(lg.handlers), lg.propagate))
+            lg.handlers = [logging.NullHandler()]
+            lg.propagate = False
+            lg.setLevel(logging.DEBUG if self.mode == "debug" else logging.NOTSET)
+        return self
+
+    def __exit__(self, *a):
+        logging = self.logging
+        if self.mode == "quiet":
+            logging.disable(logging.NOTSET)
+            return False
+        for lg, level, handlers, prop in self.saved:
+            lg.setLevel(level)
+            lg.handlers = handlers
+            lg.propagate = prop
+        return False
